@@ -79,10 +79,18 @@ def gen_iterfns(man):
     with open(SRC) as fh:
         text = fh.read()
     rows = {}
+    selfcalls = []
     for cls in ("Iter", "MapIter", "FilterIter"):
-        rows[cls] = [(n, ps, how(b)) for n, ps, b in methods(class_body(text, cls))]
+        ms = methods(class_body(text, cls))
+        rows[cls] = [(n, ps, how(b)) for n, ps, b in ms]
+        for n, ps, b in ms:
+            # a method that calls ITSELF on its receiver: every step of such a recursion costs a call frame (the VM has
+            # no tail calls, FRAMES_MAX = 64), so the length of the data would bound what can be iterated
+            if re.search(r"\bself\s*\.\s*%s\s*\(" % re.escape(n), strip_comments(b)):
+                selfcalls.append("%s.%s" % (cls, n))
     if not rows["Iter"]:
         raise ValueError("class Iter has no methods")
+    man["c18_iter_self_calls"] = selfcalls
     man["c18_iter_fns"] = {cls: [{"name": n, "params": ps, "how": h} for n, ps, h in r] for cls, r in rows.items()}
     lines = ["(* GENERATED from core.yl (classes Iter, MapIter, FilterIter) - do not edit *)",
              "From Coq Require Import List String.", "Import ListNotations.", "Open Scope string_scope.", ""]
@@ -90,6 +98,8 @@ def gen_iterfns(man):
         lines.append("(* (method, number of parameters besides self, how it obtains the iterator of its receiver) *)")
         lines.append("Definition %s_fns : list (string * nat * string) := [%s]." % (
             cls.lower(), "; ".join("(%s, %d, %s)" % (q(n), len(ps) - 1, q(h)) for n, ps, h in rows[cls])))
+    lines.append("(* methods of these classes whose body calls the same method on self (recursion instead of a loop) *)")
+    lines.append("Definition iter_self_calls : list string := [%s]." % "; ".join(q(x) for x in selfcalls))
     return "\n".join(lines) + "\n"
 
 
